@@ -20,7 +20,7 @@ import (
 func init() {
 	fw.Register(&fw.Check{
 		ID: "C06", Level: "model_checking", InProcess: true,
-		Rule: "explicit-state BFS: a state is the reference resolver's configuration (stack of open directives with their explicit flags + the pending directive); from every reachable state every token of the alphabet (each of the 29 directive kinds in a canonical scanner-valid rendering, HTTP methods both path-less and path-bearing, '(' and ')') is appended to the state's representative sequence, the text is run through the real scanner + scanProject (hook VerifScan) and the directive forest (or the rejection and its position) is compared with the reference resolver's; then re-resolution after PASTE: every macro body of <= 2 directives pasted at a representative of every reachable stack; non-trivial = transition whose sequence is accepted with >= 2 directives or rejected for context; distinct = reference states",
+		Rule: "explicit-state BFS: a state is the reference resolver's configuration (stack of open directives with their explicit flags + the pending directive); from every reachable state every token of the alphabet (each of the 29 directive kinds in a canonical scanner-valid rendering, HTTP methods both path-less and path-bearing, '(' and ')') is appended to the state's representative sequence, the text is run through the real scanner + scanProject (hook VerifScan) and the directive forest (or the rejection and its position) is compared with the reference resolver's, and for every accepted sequence without PASTE the second forest the library builds after macro expansion (the one the catalog comes from) must be the first minus the MACRO declarations; then a second pass in which every state is expanded again from a history-rich representative (reached through its deepest predecessors: what was opened and left before is still in the text), so that state the implementation keeps beyond the reference state shows, and a third pass that appends ')' and then every token to the history-rich representative of every state with an open parenthesis; then re-resolution after PASTE: every macro body of <= 2 directives pasted at a representative of every reachable stack; non-trivial = transition whose sequence is accepted with >= 2 directives or rejected for context; distinct = reference states",
 		Assume: []string{"admissibility of a kind under a kind is taken from the library's public predicates (the table is unit-tested cell by cell; the walk is what is checked)",
 			"'(' when no directive is pending is outside the property's sentence and is not generated (C01 covers it)"},
 		Run: runC06, QuickCap: 10 * time.Minute, ThoroughCap: 40 * time.Minute,
@@ -315,13 +315,17 @@ func runC06(c *fw.Ctx) {
 	al := ctxAlphabet()
 	type node struct {
 		seq []int
+		id  int
 	}
-	index := map[string]bool{}
+	index := map[string]int{}
 	s0 := &rstate{}
-	index[s0.key(al)] = true
-	frontier := []node{{nil}}
+	index[s0.key(al)] = 0
+	frontier := []node{{nil, 0}}
 	allNodes := [][]int{nil}
-	var transitions, accepted, ctxRej, otherErr, mism int64
+	// the deepest predecessor of every state (for the history-rich representatives of pass 2)
+	type predEdge struct{ pred, tok, depth int }
+	bestPred := []predEdge{{-1, -1, -1}}
+	var transitions, accepted, ctxRej, otherErr, mism, pasteForests int64
 	var nontrivial int64
 	workers := runtime.NumCPU()
 	depth := 0
@@ -329,6 +333,88 @@ func runC06(c *fw.Ctx) {
 	var vmu sync.Mutex
 	sigCount := map[string]int{}
 	states := 1
+	// doTransition appends token t to the representative sequence base, runs the real scan phase
+	// (and the second resolution after macro expansion) on the rendered text and compares with
+	// the reference resolver; it returns the reference state's key and whether the state is live.
+	doTransition := func(base []int, t int) (string, []int, bool) {
+			seq := append(append([]int{}, base...), t)
+			atomic.AddInt64(&transitions, 1)
+			// reference on the whole sequence with end of input
+			rs := refRun(al, seq)
+			keyBeforeEnd := rs.key(al)
+			// deep-copying the reference state is avoided by re-running it for the end
+			re := refRun(al, seq)
+			re.end(al)
+			text, offs := renderSeq(al, seq)
+			ir := implScan(text)
+			bad := ""
+			switch {
+			case ir.crash != "":
+				bad = "the library crashes instead of placing or rejecting the directive: " + ir.crash
+			case ir.rej == "other":
+				atomic.AddInt64(&otherErr, 1)
+				bad = fmt.Sprintf("unexpected diagnostic %q at %d (the rendering should be scanner-valid)", ir.msg, ir.index)
+			case re.rejected == "" && ir.rej != "":
+				bad = fmt.Sprintf("reference places every directive, the library rejects: %q at %d", ir.msg, ir.index)
+			case re.rejected != "" && ir.rej == "":
+				bad = fmt.Sprintf("reference rejects (%s at token %d), the library accepts with forest %s", re.rejected, re.rejAt, ir.tree)
+			case re.rejected != "" && re.rejected != ir.rej:
+				bad = fmt.Sprintf("reference rejects with %s, the library with %s (%q)", re.rejected, ir.rej, ir.msg)
+			case re.rejected == "ctx" && ir.index != offs[re.rejAt]:
+				bad = fmt.Sprintf("incorrect-context diagnostic at %d, the misplaced directive's keyword (token %d) is at %d", ir.index, re.rejAt, offs[re.rejAt])
+			case re.rejected == "" && ir.tree != dumpRef(al, re.roots):
+				bad = fmt.Sprintf("forest differs: library %s, reference %s", ir.tree, dumpRef(al, re.roots))
+			}
+			if bad == "" && re.rejected == "" && ir.rej == "" && !strings.Contains(" "+seqNames(al, seq)+" ", " PASTE ") {
+				// the catalog is built from a second forest, made by resolving the same
+				// sequence again after macro expansion: without a PASTE it must be the
+				// first forest minus the MACRO declarations
+				var want []string
+				for _, t := range parseForest(ir.tree) {
+					if t.kw != "MACRO" {
+						want = append(want, t.sexpr())
+					}
+				}
+				ip := implPaste(text)
+				atomic.AddInt64(&pasteForests, 1)
+				switch {
+				case ip.crash != "":
+					bad = "the library crashes while resolving the sequence again after macro expansion: " + ip.crash
+				case ip.rej != "":
+					if ip.rej == "ctx" {
+						bad = fmt.Sprintf("accepted by the scan phase, rejected for context when resolved again after macro expansion: %q at %d", ip.msg, ip.index)
+					}
+				case ip.tree != strings.Join(want, " "):
+					bad = fmt.Sprintf("second forest (after macro expansion) differs from the first: %s vs %s", ip.tree, strings.Join(want, " "))
+				}
+			}
+			if re.rejected == "" && ir.rej == "" {
+				atomic.AddInt64(&accepted, 1)
+				if len(seq) >= 2 {
+					atomic.AddInt64(&nontrivial, 1)
+				}
+			}
+			if re.rejected == "ctx" {
+				atomic.AddInt64(&ctxRej, 1)
+				atomic.AddInt64(&nontrivial, 1)
+			}
+			if bad != "" {
+				atomic.AddInt64(&mism, 1)
+				sig := "C06:" + ctxSig(al, seq, re, ir)
+				vmu.Lock()
+				sigCount[sig]++
+				n := sigCount[sig]
+				vmu.Unlock()
+				if n <= 2 {
+					// deterministic? run again
+					ir2 := implScan(text)
+					if ir2.tree == ir.tree && ir2.rej == ir.rej && ir2.index == ir.index {
+						c.Violate("context-resolution", sig, fmt.Sprintf("sequence [%s]: %s", seqNames(al, seq), bad), map[string]interface{}{"sequence": seqNames(al, seq), "text": text})
+					}
+				}
+			}
+			return keyBeforeEnd, seq, rs.rejected == ""
+	}
 	for len(frontier) > 0 {
 		if c.Expired() {
 			c.NotExhaustive("time cap reached before the BFS over the reference states saturated")
@@ -336,8 +422,9 @@ func runC06(c *fw.Ctx) {
 		}
 		depth++
 		type out struct {
-			key string
-			seq []int
+			key     string
+			seq     []int
+			baseLen int
 		}
 		outs := make([][]out, len(frontier))
 		var wg sync.WaitGroup
@@ -360,82 +447,154 @@ func runC06(c *fw.Ctx) {
 						if al[t].name == "(" && baseState.pending != nil && baseState.pending.explicit {
 							continue // a second '(' for the same directive: scanner-level matter
 						}
-						seq := append(append([]int{}, base...), t)
-						atomic.AddInt64(&transitions, 1)
-						// reference on the whole sequence with end of input
-						rs := refRun(al, seq)
-						keyBeforeEnd := rs.key(al)
-						// deep-copying the reference state is avoided by re-running it for the end
-						re := refRun(al, seq)
-						re.end(al)
-						text, offs := renderSeq(al, seq)
-						ir := implScan(text)
-						bad := ""
-						switch {
-						case ir.crash != "":
-							bad = "the library crashes instead of placing or rejecting the directive: " + ir.crash
-						case ir.rej == "other":
-							atomic.AddInt64(&otherErr, 1)
-							bad = fmt.Sprintf("unexpected diagnostic %q at %d (the rendering should be scanner-valid)", ir.msg, ir.index)
-						case re.rejected == "" && ir.rej != "":
-							bad = fmt.Sprintf("reference places every directive, the library rejects: %q at %d", ir.msg, ir.index)
-						case re.rejected != "" && ir.rej == "":
-							bad = fmt.Sprintf("reference rejects (%s at token %d), the library accepts with forest %s", re.rejected, re.rejAt, ir.tree)
-						case re.rejected != "" && re.rejected != ir.rej:
-							bad = fmt.Sprintf("reference rejects with %s, the library with %s (%q)", re.rejected, ir.rej, ir.msg)
-						case re.rejected == "ctx" && ir.index != offs[re.rejAt]:
-							bad = fmt.Sprintf("incorrect-context diagnostic at %d, the misplaced directive's keyword (token %d) is at %d", ir.index, re.rejAt, offs[re.rejAt])
-						case re.rejected == "" && ir.tree != dumpRef(al, re.roots):
-							bad = fmt.Sprintf("forest differs: library %s, reference %s", ir.tree, dumpRef(al, re.roots))
+						key, seq, live := doTransition(base, t)
+						if live {
+							outs[i] = append(outs[i], out{key, seq, len(base)})
 						}
-						if re.rejected == "" && ir.rej == "" {
-							atomic.AddInt64(&accepted, 1)
-							if len(seq) >= 2 {
-								atomic.AddInt64(&nontrivial, 1)
-							}
-						}
-						if re.rejected == "ctx" {
-							atomic.AddInt64(&ctxRej, 1)
-							atomic.AddInt64(&nontrivial, 1)
-						}
-						if bad != "" {
-							atomic.AddInt64(&mism, 1)
-							sig := "C06:" + ctxSig(al, seq, re, ir)
-							vmu.Lock()
-							sigCount[sig]++
-							n := sigCount[sig]
-							vmu.Unlock()
-							if n <= 2 {
-								// deterministic? run again
-								ir2 := implScan(text)
-								if ir2.tree == ir.tree && ir2.rej == ir.rej && ir2.index == ir.index {
-									c.Violate("context-resolution", sig, fmt.Sprintf("sequence [%s]: %s", seqNames(al, seq), bad), map[string]interface{}{"sequence": seqNames(al, seq), "text": text})
-								}
-							}
-						}
-						if rs.rejected == "" {
-							outs[i] = append(outs[i], out{keyBeforeEnd, seq})
-						}
+
 					}
 				}
 			}()
 		}
 		wg.Wait()
 		var next []node
-		for _, os := range outs {
+		for fi, os := range outs {
 			for _, o := range os {
-				if !index[o.key] {
-					index[o.key] = true
+				id, known := index[o.key]
+				if !known {
+					id = len(allNodes)
+					index[o.key] = id
 					states++
-					next = append(next, node{o.seq})
+					next = append(next, node{o.seq, id})
 					allNodes = append(allNodes, o.seq)
+					bestPred = append(bestPred, predEdge{-1, -1, -1})
 					if len(o.seq) > maxDepthSeen {
 						maxDepthSeen = len(o.seq)
 					}
 				}
+				if pd := len(frontier[fi].seq); pd > bestPred[id].depth && frontier[fi].id != id {
+					bestPred[id] = predEdge{frontier[fi].id, o.seq[len(o.seq)-1], pd}
+				}
 			}
 		}
 		frontier = next
+	}
+	// pass 2: history-rich representatives. The reference state forgets how it was reached; the
+	// implementation might not (a saved context, a flag). Every state is therefore expanded a
+	// second time, from a representative that reaches it through its deepest predecessors (up to 8
+	// steps back, then that state's shortest representative): a state that is reached by closing a
+	// parenthesis is entered with everything that was opened and left before still in the text.
+	var pass2States, pass2Transitions int64
+	if !c.Expired() {
+		rep2 := func(id int) []int {
+			var toks []int
+			cur := id
+			for k := 0; k < 8 && bestPred[cur].pred >= 0; k++ {
+				toks = append(toks, bestPred[cur].tok)
+				cur = bestPred[cur].pred
+			}
+			out := append([]int{}, allNodes[cur]...)
+			for i := len(toks) - 1; i >= 0; i-- {
+				out = append(out, toks[i])
+			}
+			return out
+		}
+		ch := make(chan int, len(allNodes))
+		for id := range allNodes {
+			ch <- id
+		}
+		close(ch)
+		var wg sync.WaitGroup
+		for w := 0; w < workers; w++ {
+			wg.Add(1)
+			go func() {
+				defer wg.Done()
+				for id := range ch {
+					if c.Expired() {
+						continue
+					}
+					base := rep2(id)
+					if len(base) == len(allNodes[id]) {
+						continue // no richer history than the first representative
+					}
+					atomic.AddInt64(&pass2States, 1)
+					baseState := refRun(al, base)
+					for t := range al {
+						if al[t].name == "(" && (baseState.pending == nil || baseState.pending.explicit) {
+							continue
+						}
+						atomic.AddInt64(&pass2Transitions, 1)
+						doTransition(base, t)
+					}
+				}
+			}()
+		}
+		wg.Wait()
+		if c.Expired() {
+			c.NotExhaustive("time cap reached during the second pass (history-rich representatives)")
+		}
+	}
+	// pass 3: every way of closing a parenthesis x every next token. A closing parenthesis lands in
+	// a state that forgets which directive was closed and how that directive had been placed; from
+	// the history-rich representative of every state with an open parenthesis, ')' and then every
+	// token are appended (quick: states with at most 4 open directives).
+	var pass3Transitions int64
+	if !c.Expired() {
+		closeTok := -1
+		for t := range al {
+			if al[t].name == ")" {
+				closeTok = t
+			}
+		}
+		rep2 := func(id int) []int {
+			var toks []int
+			cur := id
+			for k := 0; k < 8 && bestPred[cur].pred >= 0; k++ {
+				toks = append(toks, bestPred[cur].tok)
+				cur = bestPred[cur].pred
+			}
+			out := append([]int{}, allNodes[cur]...)
+			for i := len(toks) - 1; i >= 0; i-- {
+				out = append(out, toks[i])
+			}
+			return out
+		}
+		ch := make(chan int, len(allNodes))
+		for id := range allNodes {
+			ch <- id
+		}
+		close(ch)
+		var wg sync.WaitGroup
+		for w := 0; w < workers; w++ {
+			wg.Add(1)
+			go func() {
+				defer wg.Done()
+				for id := range ch {
+					if c.Expired() {
+						continue
+					}
+					base := append(rep2(id), closeTok)
+					st := refRun(al, base)
+					if st.rejected != "" {
+						continue // nothing to close there
+					}
+					if c.Quick() && len(st.stack) > 3 {
+						continue
+					}
+					for t := range al {
+						if al[t].name == "(" && (st.pending == nil || st.pending.explicit) {
+							continue
+						}
+						atomic.AddInt64(&pass3Transitions, 1)
+						doTransition(base, t)
+					}
+				}
+			}()
+		}
+		wg.Wait()
+		if c.Expired() {
+			c.NotExhaustive("time cap reached during the third pass (closing histories)")
+		}
 	}
 	// phase 2: re-resolution after PASTE. Every macro body of 1 (quick) / <= 2 (thorough) directives
 	// is pasted at the end of the representative of every reachable state whose sequence holds no
@@ -562,6 +721,10 @@ func runC06(c *fw.Ctx) {
 	c.Note("bfs_depth", depth)
 	c.Note("longest_representative", maxDepthSeen)
 	c.Note("accepted_sequences", accepted)
+	c.Note("second_forests_compared", pasteForests)
+	c.Note("pass2_states_expanded_from_history_rich_representatives", pass2States)
+	c.Note("pass2_transitions", pass2Transitions)
+	c.Note("pass3_transitions_after_every_way_of_closing_a_parenthesis", pass3Transitions)
 	c.Note("incorrect_context_rejections", ctxRej)
 	c.Note("nontrivial_transitions", nontrivial)
 	c.Note("mismatches", mism)
@@ -598,4 +761,11 @@ func ctxSig(al []ctxTok, seq []int, re *rstate, ir implResult) string {
 		}
 	}
 	return cls + ":" + conc
+}
+
+func init() {
+	fw.DebugCmds["ctx"] = func(args []string) {
+		a, b := implScan(args[0]), implPaste(args[0])
+		fmt.Printf("scan : %+v\npaste: %+v\n", a, b)
+	}
 }
